@@ -115,6 +115,7 @@ pub const CONTEXTS: &[(&str, &str)] = &[
     ("fn f() { case x { ", " } }\nfn g() { 1 }\n"),
     ("fn f( ", " ) { 1 }\nfn g() { 1 }\n"),
     ("import m.{ ", " }\nfn g() { 1 }\n"),
+    ("type T { C( ", " ) }\nfn g() { 1 }\n"),
 ];
 
 /// The classes that may be used to damage a body without opening a delimiter,
